@@ -1,6 +1,9 @@
 (* Props/C12.v - the proof obligations of C12 (statements only; proofs in Proofs/C12_Nav.v, Lib/C12_ExpFormat.v). *)
 From Coq Require Import Ascii String List Bool Arith ZArith QArith Lia.
-From Verif Require Import Lib.Text Lib.Dyadic Lib.C12_ExpFormat Model.C12_Nav Gen.C12_Tables Proofs.C12_Nav.
+From Coq Require Import Permutation.
+From Verif Require Model.C02_Formats.
+From Verif Require Import Lib.Text Lib.Dyadic Lib.C12_ExpFormat Lib.Fixed Model.C12_Nav Model.C12_Header Gen.C12_Tables Proofs.C12_Nav Proofs.C12_Transfer Proofs.C12_Time Proofs.C12_Header.
+Module M2 := Verif.Model.C02_Formats.
 Import ListNotations.
 Local Open Scope string_scope.
 
@@ -128,6 +131,139 @@ Theorem c12_crossover_sow_refuted :
   all2 Qeq_bool (cross spec_q wrows_week) [1140048000%Q] = true.
 Proof. exact sow_refuted. Qed.
 Print Assumptions c12_crossover_sow_refuted.
+
+(* ------------------------------------------------------------------ transfer to the regenerated tables *)
+(* any table with the same (name, start, stop) triples per line as the layout (names unique per line), in any order of
+   lines and fields, parses every text to the same records up to the order of the value list *)
+Theorem table_transfer :
+  (forall v q sys2 t lines, table_ok v t = true ->
+     rres_rel (parse_record v q sys2 (layout v) lines) (parse_record v q sys2 t lines)) /\
+  (forall v q sys2 t ls, table_ok v t = true ->
+     orel (Forall2 prec_perm) (parse_body v q sys2 (layout v) ls) (parse_body v q sys2 t ls)) /\
+  (table_ok V3 nav_table_rinex3_nav = true /\ table_ok V2 nav_table_rinex2_nav = true /\
+   table_ok V212 nav_table_rinex212_nav = true).
+Proof. exact (conj parse_record_transfer (conj parse_body_transfer gen_tables_ok)). Qed.
+Print Assumptions table_transfer.
+
+(* the file round trip on the REGENERATED tables: same records, same association of names to values, same columns *)
+Theorem nav_file_roundtrip_gen :
+  (forall rs sys2, Forall (fun r => nrec_wf V3 true r = true) rs ->
+     exists ps, parse_body V3 spec_q sys2 nav_table_rinex3_nav (render_body V3 rs) = Some ps
+                /\ Forall2 prec_equiv (map (prec_of V3 sys2) (supported_recs rs)) ps) /\
+  (forall rs c2, Forall (fun r => nrec_wf V2 true r = true /\ skipped r = false) rs ->
+     exists ps, parse_body V2 spec_q (String c2 "") nav_table_rinex2_nav (render_body V2 rs) = Some ps
+                /\ Forall2 prec_equiv (map (prec_of V2 (String c2 "")) rs) ps) /\
+  (forall rs c2, Forall (fun r => nrec_wf V212 true r = true /\ skipped r = false) rs ->
+     exists ps, parse_body V212 spec_q (String c2 "") nav_table_rinex212_nav (render_body V212 rs) = Some ps
+                /\ Forall2 prec_equiv (map (prec_of V212 (String c2 "")) rs) ps) /\
+  (forall v q hdr sys2 ps ps', Forall2 prec_equiv ps ps' -> build_cols v q hdr sys2 ps = build_cols v q hdr sys2 ps').
+Proof. exact (conj file_rt_gen_v3 (conj file_rt_gen_v2 (conj file_rt_gen_v212 build_cols_equiv))). Qed.
+Print Assumptions nav_file_roundtrip_gen.
+
+(* ------------------------------------------------------------------ epoch and times *)
+Local Open Scope Q_scope.
+(* RINEX 2 two-digit year, every spelling: 80..99 -> 19yy, 00..79 -> 20yy; it is the year of the parsed record *)
+Theorem v2_year_window :
+  (forall yy, (yy < 100)%nat ->
+     let want := if ((80 <=? yy) && (yy <=? 99))%nat then Z.of_nat (1900 + yy) else Z.of_nat (2000 + yy) in
+     year_v2 (two yy) = Some want /\ year_v2 (strip (pad2 yy)) = Some want
+     /\ year_v2 (strip (String " " (two yy))) = Some want) /\
+  (forall q sys2 kv p ytxt, parse_epoch2 q sys2 kv = RRec p -> alookup "year" kv = Some ytxt ->
+     year_v2 ytxt = Some (fst (fst (fst (fst (p_civil p)))))).
+Proof. exact (conj year_window parse_epoch2_year). Qed.
+Print Assumptions v2_year_window.
+
+(* epoch seconds F5.1 / I2: the code path after the fix (7 decimals -> microseconds) is exact; milliseconds were not *)
+Theorem epoch_seconds_exact :
+  (forall t, (t < 1000)%nat ->
+     sec_fixed (Z.of_nat t, (-1)%Z) == inject_Z (Z.of_nat t) / 10 /\
+     sec_value false (Z.of_nat t, (-1)%Z) == inject_Z (Z.of_nat t) / 10 /\
+     sec_fixed (Z.of_nat t, 0%Z) == inject_Z (Z.of_nat t)) /\
+  (Qeq_bool (sec_value true (305%Z, (-1)%Z)) (61 # 2) = false /\ Qeq_bool (sec_value true (305%Z, (-1)%Z)) 5030 = true).
+Proof. exact (conj sec_fixed_exact sec_ms_refuted). Qed.
+Print Assumptions epoch_seconds_exact.
+
+(* calendar epoch -> day number -> GPS seconds -> Julian date, tied to the calendar / format model of C02 *)
+Theorem epoch_calendar_spec :
+  (forall y m d, (1 <= m <= 12)%Z -> days_from_civil y m d = M2.days_from_civil y m d) /\
+  (forall y m d y' m' d', M2.valid_date y m d = true -> M2.valid_date y' m' d' = true ->
+     days_from_civil y m d = days_from_civil y' m' d' -> (y, m, d) = (y', m', d')) /\
+  (forall y mo d h mi s, (1 <= mo <= 12)%Z ->
+     M2.jd_of_us (M2.us_of_dt (M2.Dt y mo d h mi s 0))
+     == M2.jd_of_gpssec (inject_Z ((days_from_civil y mo d - gps_epoch_day) * 86400 + h * 3600 + mi * 60 + s))) /\
+  (forall e, jd_gps_epoch + e / 86400 == M2.jd_of_gpssec e) /\
+  (forall w s, M2.jd_of_gpsws w s == M2.jd_of_gpssec (w * weekQ + s)) /\
+  (forall x, x == inject_Z (week_of x) * weekQ + sow_of x /\ 0 <= sow_of x /\ sow_of x < weekQ).
+Proof.
+  exact (conj dfc_eq_c02 (conj civil_injective (conj toc_is_datetime (conj expected_jd_is_gpssec (conj gpsws_is_gpssec week_sow_split))))).
+Qed.
+Print Assumptions epoch_calendar_spec.
+
+(* the arithmetic of the code after fix 414cbad (normalised week / seconds of week, week-aware difference, both directions
+   per record) is the specification, for every file *)
+Theorem crossover_fixed_code_is_spec : forall rows, Forall2 Qeq (cross_fixed rows) (cross spec_q rows).
+Proof. exact cross_fixed_is_spec. Qed.
+Print Assumptions crossover_fixed_code_is_spec.
+
+(* every record: its three output times depend on that record only, obey the cross-over law relative to its own epoch,
+   and carry the BeiDou shift (+14 s on epoch and seconds of week, +1356 weeks) exactly when the system is C *)
+Theorem record_times_spec :
+  (forall v hdr sys2 ps,
+     c_time (build_cols v spec_q hdr sys2 ps)
+     = [("time", map (toc_abs false) ps); ("toe", map (rec_time "toe") ps);
+        ("transmission_time", map (rec_time "transmission_time") ps)]) /\
+  (forall name p,
+     let toc := toc_abs false p in let t := lit_time name p in let r := rec_time name p in
+     (r == t \/ r == t + weekQ \/ r == t - weekQ) /\
+     ((halfQ < toc - t)%Q -> r == t + weekQ) /\ ((toc - t < - halfQ)%Q -> r == t - weekQ) /\
+     ((- halfQ <= toc - t)%Q -> (toc - t <= halfQ)%Q -> r == t) /\
+     ((- (halfQ + weekQ) <= toc - t)%Q -> (toc - t <= halfQ + weekQ)%Q -> (- halfQ <= toc - r)%Q /\ (toc - r <= halfQ)%Q)) /\
+  (forall name p w s, pval "gnss_week" p = Some w -> pval name p = Some s ->
+     (p_sys p = "C" -> toc_abs false p == toc_file p + 14 /\ week_val p == w + 1356
+                      /\ lit_time name p == (w + 1356) * weekQ + s + 14) /\
+     (p_sys p <> "C" -> toc_abs false p == toc_file p /\ week_val p == w /\ lit_time name p == w * weekQ + s)).
+Proof. exact (conj times_per_record (conj rec_time_spec bds_on_record)). Qed.
+Print Assumptions record_times_spec.
+
+Local Close Scope Q_scope.
+(* ------------------------------------------------------------------ header records *)
+(* the regenerated header tables and label -> method maps of the three parsers are the format's (same labels, same
+   (name, start, stop) per label in any order, same method); in the format's layout the fields of a label are ordered,
+   disjoint and inside columns 0..60, labels are distinct, trimmed, at most 20 characters and not the end marker *)
+Theorem header_fields_wf :
+  (htable_ok V3 hdr_table_rinex3_nav hdr_methods_rinex3_nav = true /\
+   htable_ok V2 hdr_table_rinex2_nav hdr_methods_rinex2_nav = true /\
+   htable_ok V212 hdr_table_rinex212_nav hdr_methods_rinex212_nav = true) /\
+  (hdr_layout_wf V3 = true /\ hdr_layout_wf V2 = true /\ hdr_layout_wf V212 = true).
+Proof. exact (conj hdr_gen_ok hdr_layouts_wf). Qed.
+Print Assumptions header_fields_wf.
+
+(* a header of any number of records (version/type, pgm, comments, leap seconds, ionospheric and time system corrections),
+   every field any trimmed text that fits its columns, left- or right-justified, followed by END OF HEADER and the data:
+   the parser yields exactly the methods applied to the field values, and hands the data lines on *)
+Theorem header_roundtrip : forall ok v hs m body,
+  Forall (fun h => hline_ok v h = true) hs ->
+  parse_header ok v (hdr_layout v) (hdr_methods v) (map (render_h v) hs ++ end_line :: body) m
+  = match meta_of ok v hs m with Some m' => Some (m', body) | None => None end.
+Proof. exact C12_Header.header_roundtrip. Qed.
+Print Assumptions header_roundtrip.
+
+(* with the regenerated tables every line gives the same label, the same method and the same association name -> text *)
+Theorem header_fields_transfer : forall v t ps line,
+  htable_ok v t ps = true ->
+  match hdr_fields (hdr_layout v) line, hdr_fields t line with
+  | Some (lab, kv), Some (lab', kv') => lab = lab' /\ (forall n, alookup n kv = alookup n kv')
+                                        /\ alookup lab ps = alookup lab (hdr_methods v)
+  | None, None => True
+  | _, _ => False
+  end.
+Proof. exact hdr_fields_transfer. Qed.
+Print Assumptions header_fields_transfer.
+
+Example header_example :
+  forallb (hline_ok V3) ex_header = true
+  /\ match meta_of true V3 ex_header meta0 with Some m => Nat.eqb (length (m_iono m)) 1 && Nat.eqb (length (m_tsc m)) 1 | None => false end = true.
+Proof. exact ex_header_ok. Qed.
 
 (* non-vacuity *)
 Example wf_records_exist :
